@@ -101,3 +101,33 @@ Lemma nv_facts :
   map (fun r => rget r "start_time") (rows_of "job" nv_result)
     = [Some (VTime 1600000000 999999); Some (VTime 1600000001 1)].
 Proof. vm_compute. repeat split; reflexivity. Qed.
+
+(* ------------------------------------------------------------------ 2.3 database with PARTLY labelled job trees *)
+Definition pl_job (id : string) (parent eid : val) : row :=
+  [("id", VText id); ("start_time", VTime 1600000000 0); ("end_time", VNull); ("task_hash", VText "t0");
+   ("cached", VInt 0); ("call_hash", VNull); ("parent_id", parent); ("execution_id", eid)].
+
+(** Tree 1 (execution e0 on root j0): j0 labelled, child j1 NOT, grandchild j2 labelled, j3 (child of j1) NOT.
+    Tree 2 (root k0 without execution): k0 and its child k1 unlabelled. *)
+Definition pl_db (v : utc_variant) : db :=
+  with_rows "job"
+    [pl_job "j0" VNull (VText "e0"); pl_job "j1" (VText "j0") VNull; pl_job "j2" (VText "j1") (VText "e0");
+     pl_job "j3" (VText "j1") VNull; pl_job "k0" VNull VNull; pl_job "k1" (VText "k0") VNull]
+    (with_rows "execution" [[("id", VText "e0"); ("args", VText "[]"); ("job_id", VText "j0")]]
+       (with_rows "task" [[("hash", VText "t0"); ("name", VText "main"); ("namespace", VText ""); ("source", VText "")]]
+          (built_or_empty v 5))).
+
+Definition job_eids (r : result db) : list (option val * option val) :=
+  match r with
+  | Ok d => map (fun j => (rget j "id", rget j "execution_id")) (rows_of "job" d)
+  | Err _ => []
+  end.
+
+(** Every job, labelled or not, ends with the execution of its root; no job row is lost. *)
+Lemma pl_facts : forall v,
+  d_rev (pl_db v) = "d4af139b6f53" /\
+  job_eids (upgrade env0 (chain v) db_versions (pl_db v)) =
+    [(Some (VText "j0"), Some (VText "e0")); (Some (VText "j1"), Some (VText "e0"));
+     (Some (VText "j2"), Some (VText "e0")); (Some (VText "j3"), Some (VText "e0"));
+     (Some (VText "k0"), Some (VFresh "stub" (VText "k0"))); (Some (VText "k1"), Some (VFresh "stub" (VText "k0")))].
+Proof. destruct v; vm_compute; split; reflexivity. Qed.
